@@ -145,25 +145,26 @@ func runC09(c *Ctx) {
 		return
 	}
 	var CORE *ssa.Function
+	var ROLES [4]int
 	sigs := map[string][]string{}
 	for _, V := range []*ssa.Function{ociV, blobV} {
 		kind := "oci"
 		if V == blobV {
 			kind = "blob"
 		}
-		core := c09Document(c, V, kind, sigs)
+		core, roles := c09Document(c, V, kind, sigs)
 		if core != nil {
-			if CORE != nil && CORE != core {
-				c.Bad("siblings/core", "sibling agreement: both document kinds validate statements with the same core function", w.FnPos(V), "different core validators")
+			if CORE != nil && (CORE != core || ROLES != roles) {
+				c.Bad("siblings/core", "sibling agreement: both document kinds validate statements with the same core function, handing it the same parts", w.FnPos(V), "different core validators")
 			}
-			CORE = core
+			CORE, ROLES = core, roles
 		}
 	}
 	// (b) sibling agreement on document-level gates
 	c.Check(strings.Join(sigs["oci"], ",") == strings.Join(sigs["blob"], ",") && len(sigs["oci"]) >= 6, "siblings/document-gates", "sibling agreement: the OCI and blob document validators perform the same document-level checks", w.FnPos(blobV),
 		fmt.Sprintf("oci=%v blob=%v", sigs["oci"], sigs["blob"]))
 	if CORE != nil {
-		c09Core(c, CORE)
+		c09Core(c, CORE, ROLES)
 	}
 	c09Scopes(c, ociV)
 	c09DeepEqual(c)
@@ -183,7 +184,7 @@ func runC09(c *Ctx) {
 }
 
 // c09Document checks the document-level gates and returns the core validator.
-func c09Document(c *Ctx, V *ssa.Function, kind string, sigs map[string][]string) *ssa.Function {
+func c09Document(c *Ctx, V *ssa.Function, kind string, sigs map[string][]string) (*ssa.Function, [4]int) {
 	w := c.W
 	fi := w.Info(V)
 	c.SeenFn(V.String())
@@ -209,13 +210,13 @@ func c09Document(c *Ctx, V *ssa.Function, kind string, sigs map[string][]string)
 		}
 	}
 	add("nil-document", has("NE("+doc+",nil)"))
-	add("empty-version", has("NE("+doc+`.Version,const:"")`))
+	add("empty-version", has("NE("+doc+`.Version,const:"")`) || has("NE(len("+doc+".Version),const:0)"))
 	add("unsupported-version", has("T(call:slices.Contains(global:ngo/verifier/trustpolicy.", ","+doc+".Version))"))
 	add("no-statements", has("NE(len("+doc+".TrustPolicies),const:0)") || has("GT(len("+doc+".TrustPolicies),const:0)") || has("GE(len("+doc+".TrustPolicies),const:1)"))
 	loop := findLoop(V, func(d string) bool { return d == doc+".TrustPolicies" })
 	if loop == nil {
 		c.Bad(kind+"/document/statement-loop", "the validator visits every statement", site, "no loop over the document's statements")
-		return nil
+		return nil, [4]int{}
 	}
 	// success only after the loop
 	{
@@ -225,30 +226,102 @@ func c09Document(c *Ctx, V *ssa.Function, kind string, sigs map[string][]string)
 		c.slot(wit == nil, 1, kind+"/document/statement-loop", kind+" document: every statement is visited before the document is accepted", w.InstrPos(blockTerm(loop.Header)), "the statement loop can be bypassed", wit...)
 	}
 	labels, _ := fi.mustPassBetween([]int{loop.Body.Index}, map[int]bool{loop.Header.Index: true})
-	// duplicate names
+	// The core validator: the module function whose success every completed iteration requires and that is handed the
+	// four parts of the statement of this iteration — its Name, SignatureVerification, TrustStores and TrustedIdentities,
+	// recognised by what is passed (in any order, next to any other arguments), not by position. The fact is must-pass
+	// for the iteration whether the call stands in the loop body or in a per-statement helper whose success the loop
+	// requires (its facts are composed into this frame).
+	// The statement is the element of this iteration: the list element at the loop's own index, or a read-only local
+	// copy of it (c09IterStatement) — a core validator run on some other statement does not validate this one.
+	// A per-statement helper that wraps the core validator is handed the same parts: the core validator is the innermost
+	// one — the candidate that does not forward the four parts to another module function.
 	var stmt string
 	var CORE *ssa.Function
-	for _, l := range labelList(labels) {
-		if strings.HasPrefix(l, "EQ(call:ngo/verifier/trustpolicy.") && strings.HasSuffix(l, "#err,nil)") && strings.Contains(l, ".SignatureVerification,") {
-			// EQ(call:<core>(<stmt>.Name,<stmt>.SignatureVerification,<stmt>.TrustStores,<stmt>.TrustedIdentities)#err,nil)
-			inner := strings.TrimSuffix(strings.TrimPrefix(l, "EQ(call:"), ")#err,nil)")
-			i := strings.Index(inner, "(")
-			args := strings.Split(inner[i+1:], ",")
-			if len(args) == 4 && strings.HasSuffix(args[0], ".Name") {
-				st := strings.TrimSuffix(args[0], ".Name")
-				if args[1] == st+".SignatureVerification" && args[2] == st+".TrustStores" && args[3] == st+".TrustedIdentities" {
-					// the fact is must-pass for the iteration whether the call stands in the loop body or in a
-					// per-statement helper whose success the loop requires (its facts are composed into this frame)
-					if f := fnByFullName(w, inner[:i]); f != nil {
-						CORE, stmt = f, st
+	var roles [4]int
+	type coreCand struct {
+		f     *ssa.Function
+		st    string
+		roles [4]int
+	}
+	var cands []coreCand
+	pickCore := func() {
+		for _, x := range cands {
+			// a wrapper forwards all four parts to one module function (whether or not it then heeds the answer: a
+			// wrapper that ignores the core validator's error is not itself the core validator)
+			wraps := false
+			for _, ci := range allCalls(x.f) {
+				call, isCall := ci.(*ssa.Call)
+				if !isCall || c09Helper(w, call) == nil {
+					continue
+				}
+				n := 0
+				for _, r := range x.roles {
+					prm := x.f.Params[r]
+					for _, a := range call.Call.Args {
+						if al, isAl := a.(*ssa.Alloc); isAl {
+							if st := c09ReadOnlyCopy(w, al); st != nil {
+								a = st.Val
+							}
+						}
+						if a == ssa.Value(prm) {
+							n++
+							break
+						}
 					}
 				}
+				if n == 4 {
+					wraps = true
+				}
+			}
+			if !wraps {
+				CORE, stmt, roles = x.f, x.st, x.roles
 			}
 		}
 	}
+	for _, l := range labelList(labels) {
+		if !strings.HasPrefix(l, "EQ(call:") || !strings.HasSuffix(l, "#err,nil)") {
+			continue
+		}
+		name, args, ok := c09ParseCall(strings.TrimSuffix(strings.TrimPrefix(l, "EQ("), "#err,nil)"))
+		if !ok || !strings.HasPrefix(strings.TrimPrefix(name, "(*"), "ngo/") && !strings.HasPrefix(strings.TrimPrefix(name, "("), "ngo/") {
+			continue
+		}
+		st := ""
+		for _, a := range args {
+			if strings.HasSuffix(a, ".SignatureVerification") {
+				st = strings.TrimSuffix(a, ".SignatureVerification")
+			}
+		}
+		if st == "" || !c09IterStatement(w, V, loop, st) {
+			continue
+		}
+		var r [4]int
+		okRoles := true
+		for k, f := range []string{".Name", ".SignatureVerification", ".TrustStores", ".TrustedIdentities"} {
+			r[k] = -1
+			for i, a := range args {
+				if a == st+f {
+					if r[k] >= 0 {
+						okRoles = false
+					}
+					r[k] = i
+				}
+			}
+			if r[k] < 0 {
+				okRoles = false
+			}
+		}
+		if !okRoles {
+			continue
+		}
+		if f := fnByFullName(w, name); f != nil && len(f.Params) == len(args) {
+			cands = append(cands, coreCand{f, st, r})
+		}
+	}
+	pickCore()
 	add("core-rules", CORE != nil)
 	if stmt == "" {
-		return CORE
+		return CORE, roles
 	}
 	// duplicate names: the iteration passes "the name set does not contain the statement's name" and adds the name to that
 	// very set, which lives across the iterations (it is made outside the loop). Both the test and the Add may stand in
@@ -271,6 +344,35 @@ func c09Document(c *Ctx, V *ssa.Function, kind string, sigs map[string][]string)
 			sets = append(sets, s)
 		}
 	})
+	// the name set may also be a plain map made outside the loop (`if _, seen := names[n]; seen`, `if names[n]`): the
+	// same predicate as Set.Contains (container.Set is such a map). The map is identified by its rendering, which is
+	// only trusted when no other map in reach is rendered alike.
+	plainSet := map[ssa.Value]bool{}
+	c09VisitFrames(w, V, c09TopFrame(), c09Depth, func(f *ssa.Function, fr c09Frame) {
+		for _, b := range f.Blocks {
+			for _, in := range b.Instrs {
+				lk, ok := in.(*ssa.Lookup)
+				if !ok || fr.sub(desc(lk.Index)) != stmt+".Name" {
+					continue
+				}
+				mt, isMap := lk.X.Type().Underlying().(*types.Map)
+				s := fr.top(lk.X)
+				if _, isMake := s.(*ssa.MakeMap); !isMap || !isMake || !outside(s) || c09SameMaps(w, V, s) != 1 {
+					continue
+				}
+				absent := ""
+				if lk.CommaOk {
+					absent = "F(ok(" + desc(lk) + "))"
+				} else if bt, isB := mt.Elem().Underlying().(*types.Basic); isB && bt.Kind() == types.Bool {
+					absent = "F(" + desc(lk) + ")"
+				}
+				if absent != "" && labelHas(labels, fr.sub(absent)) {
+					sets = append(sets, s)
+					plainSet[s] = true
+				}
+			}
+		}
+	})
 	dupGate := len(sets) > 0
 	// the name is added on every completed iteration: by the loop body itself, or by a per-statement helper whose
 	// success the iteration requires and whose every success exit lies behind the Add
@@ -287,7 +389,21 @@ func c09Document(c *Ctx, V *ssa.Function, kind string, sigs map[string][]string)
 			}
 			return false
 		}
-		blocks := c09EffectBlocks(w, V, c09TopFrame(), isAdd, func(l string) bool { return labelHas(labels, l) }, c09Depth)
+		// (a plain map: the name is stored as a key — with the value true when membership is read off the value)
+		isPut := func(in ssa.Instruction, fr c09Frame) bool {
+			if call, ok := in.(*ssa.Call); ok {
+				return isAdd(call, fr)
+			}
+			mu, ok := in.(*ssa.MapUpdate)
+			if !ok || fr.sub(desc(mu.Key)) != stmt+".Name" || !plainSet[fr.top(mu.Map)] {
+				return false
+			}
+			if bt, isB := mu.Value.Type().Underlying().(*types.Basic); isB && bt.Kind() == types.Bool {
+				return desc(mu.Value) == "const:true"
+			}
+			return true
+		}
+		blocks := c09EffectBlocksI(w, V, c09TopFrame(), isPut, func(l string) bool { return labelHas(labels, l) }, c09Depth)
 		cut := map[edgeKey]bool{}
 		for b := range blocks {
 			cutInto(fi, b, cut)
@@ -298,20 +414,30 @@ func c09Document(c *Ctx, V *ssa.Function, kind string, sigs map[string][]string)
 	}
 	add("duplicate-name", dupGate && okAdd)
 	if kind == "blob" {
-		c09BlobGlobal(c, V, loop, stmt)
+		c09BlobGlobal(c, V, loop, stmt, plainSet)
 	} else {
-		// scope rules
+		// scope rules: the document is accepted only if the scope validator returned no error — or, when the scope
+		// rules stand in the document validator itself, only through their statement loop (the rest of the way to
+		// success is decided by c09Scopes: every statement's scope loop, the uniqueness loop)
 		ok := false
-		if sc := c09ScopeCall(w, V); sc != nil {
-			ok = has("EQ(" + descTailErr(sc) + ",nil)")
+		if at := c09ScopeSite(w, V); at != nil {
+			if at.call != nil {
+				ok = has("EQ(" + descTailErr(at.call) + ",nil)")
+			} else if at.outer != nil && at.inner != nil {
+				cut := map[edgeKey]bool{}
+				cutInto(fi, at.outer.Header, cut)
+				ok = fi.successWitness(Mode{Kind: mErr}, entryState(), cut) == nil
+			}
 		}
 		c.slot(ok, 1, "oci/document/scope-rules", "oci document: registry scope rules", site, "accepted without the scope rules")
 	}
-	return CORE
+	return CORE, roles
 }
 
 // c09BlobGlobal: at most one global statement, which must not be skip — by abstract interpretation of the loop body.
-func c09BlobGlobal(c *Ctx, V *ssa.Function, loop *loopRef, stmt string) {
+// nameSets: the plain maps recognised as the name set by the duplicate-name rule (which decides that rule by itself: its
+// lookup is stubbed to "not seen" here, like Set.Contains).
+func c09BlobGlobal(c *Ctx, V *ssa.Function, loop *loopRef, stmt string, nameSets map[ssa.Value]bool) {
 	w := c.W
 	// the found-global flag: bool header phi
 	var flag *ssa.Phi
@@ -338,6 +464,22 @@ func c09BlobGlobal(c *Ctx, V *ssa.Function, loop *loopRef, stmt string) {
 		}
 		return AVal{}, false
 	}, 0)
+	if len(nameSets) > 0 {
+		inner := ip.Hook
+		ip.Hook = func(in ssa.Instruction, env map[ssa.Value]AVal) (AVal, bool) {
+			switch x := in.(type) {
+			case *ssa.Lookup:
+				if nameSets[x.X] && !x.CommaOk {
+					return AVal{Kind: aBool, B: false}, true
+				}
+			case *ssa.Extract:
+				if lk, ok := x.Tuple.(*ssa.Lookup); ok && lk.CommaOk && nameSets[lk.X] && x.Index == 1 {
+					return AVal{Kind: aBool, B: false}, true
+				}
+			}
+			return inner(in, env)
+		}
+	}
 	var bad []string
 	n := 0
 	for _, seen := range []bool{false, true} {
@@ -377,16 +519,33 @@ func c09BlobGlobal(c *Ctx, V *ssa.Function, loop *loopRef, stmt string) {
 	c.Check(len(bad) == 0 && n > 0, "blob/document/global-rules", rule, w.InstrPos(blockTerm(loop.Header)), strings.Join(uniq(bad), "; "))
 }
 
-func c09Core(c *Ctx, CORE *ssa.Function) {
+// c09Core: the rules of one statement; roles gives the positions of the parameters that receive the statement's name,
+// SignatureVerification, trust stores and trusted identities (read off the call: c09Document).
+func c09Core(c *Ctx, CORE *ssa.Function, roles [4]int) {
 	w := c.W
 	fi := w.Info(CORE)
 	c.SeenFn(CORE.String())
 	site := w.FnPos(CORE)
-	if len(CORE.Params) != 4 {
-		c.Unk("core/shape", "anchor: core validator (name, signatureVerification, trustStores, trustedIdentities)", site, "unexpected arity")
-		return
+	for _, r := range roles {
+		if r < 0 || r >= len(CORE.Params) {
+			c.Unk("core/shape", "anchor: core validator (name, signatureVerification, trustStores, trustedIdentities)", site, "unexpected parameters")
+			return
+		}
 	}
-	name, sv, stores, ids := "param:"+CORE.Params[0].Name(), CORE.Params[1].Name(), "param:"+CORE.Params[2].Name(), "param:"+CORE.Params[3].Name()
+	name, stores, ids := "param:"+CORE.Params[roles[0]].Name(), "param:"+CORE.Params[roles[2]].Name(), "param:"+CORE.Params[roles[3]].Name()
+	// the SignatureVerification the level is asked of: the parameter itself (a pointer), or the addressable local the
+	// value parameter is spilled to because a pointer-receiver method is called on it (a read-only copy of the parameter)
+	svP := CORE.Params[roles[1]]
+	svs := []string{"param:" + svP.Name()}
+	for _, b := range CORE.Blocks {
+		for _, in := range b.Instrs {
+			if al, ok := in.(*ssa.Alloc); ok {
+				if st := c09ReadOnlyCopy(w, al); st != nil && st.Val == ssa.Value(svP) && c09SameRendering(w, CORE, al) == 1 {
+					svs = append(svs, desc(al))
+				}
+			}
+		}
+	}
 	s := w.Summarize(CORE, Mode{Kind: mErr})
 	c.Evals += s.States
 	has := func(exits []*ExitSum, subs ...string) bool {
@@ -400,8 +559,15 @@ func c09Core(c *Ctx, CORE *ssa.Function) {
 		}
 		return true
 	}
-	c.slot(has(s.Exits, "NE("+name+`,const:"")`), 1, "core/empty-name", "statement: non-empty name", site, "")
-	c.slot(has(s.Exits, "EQ(call:(*ngo/verifier/trustpolicy.SignatureVerification).GetVerificationLevel(", sv, "#err,nil)"), 1, "core/level-valid", "statement: valid level and overrides (GetVerificationLevel err == nil)", site, "")
+	c.slot(has(s.Exits, "NE("+name+`,const:"")`) || has(s.Exits, "NE(len("+name+"),const:0)"), 1, "core/empty-name", "statement: non-empty name", site, "")
+	const getLevel = "call:(*ngo/verifier/trustpolicy.SignatureVerification).GetVerificationLevel("
+	okLevel := false
+	for _, sv := range svs {
+		if has(s.Exits, "EQ("+getLevel+sv+")#err,nil)") {
+			okLevel = true
+		}
+	}
+	c.slot(okLevel, 1, "core/level-valid", "statement: valid level and overrides (GetVerificationLevel of the statement's SignatureVerification: err == nil)", site, "")
 	oa, _ := w.constString("verifier/trustpolicy", "OptionAfterCertExpiry")
 	oal, _ := w.constString("verifier/trustpolicy", "OptionAlways")
 	vt := "." + "VerifyTimestamp,"
@@ -409,8 +575,13 @@ func c09Core(c *Ctx, CORE *ssa.Function) {
 	ok, n, wit := exitsBlockedDeep(w, CORE, Mode{Kind: mErr}, matchOf(pre("EQ(", vt+`const:"")`), pre("EQ(", vt+fmt.Sprintf("const:%q)", oal)), pre("EQ(", vt+fmt.Sprintf("const:%q)", oa))))
 	c.slot(ok && n >= 3, n, "core/verify-timestamp-option", "statement: verifyTimestamp is unset, always or afterCertExpiry", site, "an unknown verifyTimestamp option is accepted", wit...)
 	lvlName := ".Name,const:\"skip\")"
-	skipE := fi.edgesMatching(matchOf(pre("EQ(call:(*ngo/verifier/trustpolicy.SignatureVerification).GetVerificationLevel(", lvlName)))
-	nonSkipE := fi.edgesMatching(matchOf(pre("NE(call:(*ngo/verifier/trustpolicy.SignatureVerification).GetVerificationLevel(", lvlName)))
+	var isSkip, isNonSkip []func(string) bool
+	for _, sv := range svs {
+		isSkip = append(isSkip, pre("EQ("+getLevel+sv+")", lvlName))
+		isNonSkip = append(isNonSkip, pre("NE("+getLevel+sv+")", lvlName))
+	}
+	skipE := fi.edgesMatching(matchOf(isSkip...))
+	nonSkipE := fi.edgesMatching(matchOf(isNonSkip...))
 	if len(skipE) == 0 || len(nonSkipE) == 0 {
 		c.Bad("core/skip-split", "statement: the stores/identities rules depend on whether the level is skip", site, "no test of the level name against \"skip\"")
 		return
@@ -437,6 +608,7 @@ func c09Core(c *Ctx, CORE *ssa.Function) {
 	c.slot(alt(sNon.Exits, nonzero(ids)), 1, "core/non-skip-identities", "statement: a non-skip statement lists at least one trusted identity", site, "")
 	// store and identity validators
 	var TS, TI *ssa.Function
+	tsArg, tiArg := -1, -1
 	for _, ex := range sNon.Exits {
 		for l := range ex.Checked {
 			if strings.HasPrefix(l, "EQ(call:ngo/verifier/trustpolicy.") && strings.HasSuffix(l, "#err,nil)") {
@@ -445,15 +617,19 @@ func c09Core(c *Ctx, CORE *ssa.Function) {
 					if !ok || "EQ("+descTailErr(call)+",nil)" != l {
 						continue
 					}
-					g := staticCallee(call)
-					if g == nil || len(call.Call.Args) != 2 {
+					// the validator of a list is the module function that is handed that list, at whatever position
+					// and next to whatever other arguments
+					g := c09Helper(w, call)
+					if g == nil {
 						continue
 					}
-					switch desc(call.Call.Args[1]) {
-					case stores:
-						TS = g
-					case ids:
-						TI = g
+					for i, a := range call.Call.Args {
+						switch desc(a) {
+						case stores:
+							TS, tsArg = g, i
+						case ids:
+							TI, tiArg = g, i
+						}
 					}
 				}
 			}
@@ -462,63 +638,60 @@ func c09Core(c *Ctx, CORE *ssa.Function) {
 	c.slot(TS != nil, 1, "core/store-rules", "statement: trust store rules (non-skip)", site, "the trust stores of a non-skip statement are not validated")
 	c.slot(TI != nil, 1, "core/identity-rules", "statement: trusted identity rules (non-skip)", site, "the trusted identities of a non-skip statement are not validated")
 	if TS != nil {
-		c09Stores(c, TS)
+		c09Stores(c, TS, tsArg)
 	}
 	if TI != nil {
-		c09Identities(c, TI)
+		c09Identities(c, TI, tiArg)
 	}
 }
 
-func c09Stores(c *Ctx, TS *ssa.Function) {
+// c09Stores: the rules of one trust store entry; pi is the position of the store list among the validator's parameters.
+func c09Stores(c *Ctx, TS *ssa.Function, pi int) {
 	w := c.W
 	fi := w.Info(TS)
 	c.SeenFn(TS.String())
-	p := "param:" + TS.Params[1].Name()
+	p := "param:" + TS.Params[pi].Name()
 	loop := findLoop(TS, func(d string) bool { return d == p })
 	if loop == nil {
 		c.Bad("store/loop", "every listed trust store is validated", w.FnPos(TS), "no loop over the trust stores")
 		return
 	}
 	site := w.InstrPos(blockTerm(loop.Header))
-	labels, _ := fi.mustPassBetween([]int{loop.Body.Index}, map[int]bool{loop.Header.Index: true})
-	_, h1 := hasLabel(labels, "T(call:strings.Cut("+p+"[", `,const:":")#2)`)
-	c.slot(h1, 1, "store/separator", "trust store entry: type:name separator present", site, "")
-	var typeFn, nameFn *ssa.Function
-	for l := range labels {
-		if strings.HasPrefix(l, "T(call:") && strings.HasSuffix(l, `,const:":")#0))`) {
-			if f := fnByLabel(w, TS, l); f != nil {
-				typeFn = f
-			}
-		}
-		if strings.HasPrefix(l, "T(call:") && strings.HasSuffix(l, `,const:":")#1))`) {
-			if f := fnByLabel(w, TS, l); f != nil {
-				nameFn = f
-			}
-		}
+	m := Mode{Kind: mErr}
+	// The three rules of an entry are decided per completed iteration, as cut sets: an iteration can neither complete nor
+	// leave with success unless it passes an edge on which the rule's fact holds. The fact may be tested in the loop body
+	// or in a module helper the body relies on (c09GateCut: the helper's outcome that the body requires is reachable only
+	// through such an edge, its parameters replaced by the arguments) — it makes no difference to the rule whether the
+	// membership test is a hand-written loop in a helper, that loop inlined, or slices.Contains over the same list.
+	// The two halves of the entry are rendered as the results of strings.Cut(entry, ":") however they are computed
+	// (strings.Index + slicing, a splitting helper that hands back those expressions: ssautil.go).
+	part := func(k int) (string, string) {
+		return "call:strings.Cut(" + p + "[", fmt.Sprintf(`],const:":")#%d`, k)
 	}
-	c.slot(typeFn != nil, 1, "store/known-type", "trust store entry: the type prefix passes the store-type validator", site, "")
-	c.slot(nameFn != nil && fnName(nameFn) == "ngo/internal/file.IsValidFileName", 1, "store/safe-name", "trust store entry: the name passes the certified file-name validator", site, "")
-	if typeFn != nil {
-		// true only when equal to an element of truststore.Types
-		tfi := w.Info(typeFn)
-		c.SeenFn(typeFn.String())
-		s := w.Summarize(typeFn, Mode{Kind: mBool, Want: true})
-		ok := len(s.Exits) > 0
-		for _, ex := range s.Exits {
-			_, a := hasLabel(ex.Checked, "EQ(param:", "global:ngo/verifier/truststore.Types[")
-			_, b := hasLabel(ex.Checked, "global:ngo/verifier/truststore.Types[", ",param:")
-			_, d := hasLabel(ex.Checked, "T(call:slices.Contains(global:ngo/verifier/truststore.Types,")
-			if !a && !b && !d {
-				ok = false
-			}
-		}
-		_ = tfi
-		c.slot(ok, 1, "store/known-type/validator", "store-type validator: true only for an element of truststore.Types", w.FnPos(typeFn), "true for an unknown type")
+	a, z := part(2)
+	b, n := iterBlockedDeep(w, TS, loop, m, matchOf(pre("T("+a, z+")")))
+	c.slot(b, n, "store/separator", "trust store entry: type:name separator present", site, "an entry without separator is accepted")
+	// known type: the type prefix equals an element of truststore.Types (slices.Contains over that list, or an equality
+	// with one of its elements), or one of the constants the list is initialised with
+	a, z = part(0)
+	types := "global:ngo/verifier/truststore.Types"
+	known := []func(string) bool{
+		pre("T(call:slices.Contains("+types+","+a, z+"))"),
+		pre("EQ("+a, z+","+types+"["),
 	}
+	for _, k := range c09StoreTypeConstants(w) {
+		known = append(known, pre("EQ("+a, z+fmt.Sprintf(",const:%q)", k)))
+	}
+	b, n = iterBlockedDeep(w, TS, loop, m, matchOf(known...))
+	c.slot(b, n, "store/known-type", "trust store entry: the type prefix passes the store-type test", site, "an entry of unknown type is accepted")
+	c.slot(n > 0, 1, "store/known-type/validator", "store-type test: true only for an element of truststore.Types", site, "no test of the type prefix that is true only for an element of truststore.Types (true for an unknown type)")
+	a, z = part(1)
+	b, n = iterBlockedDeep(w, TS, loop, m, matchOf(pre("T(call:ngo/internal/file.IsValidFileName("+a, z+"))")))
+	c.slot(b, n, "store/safe-name", "trust store entry: the name passes the certified file-name validator", site, "an entry whose name did not pass the file-name validator is accepted")
 	// success only after the loop
 	cut := map[edgeKey]bool{}
 	cutInto(fi, loop.Header, cut)
-	c.slot(fi.successWitness(Mode{Kind: mErr}, entryState(), cut) == nil, 1, "store/loop", "every listed trust store is validated", site, "the loop can be bypassed")
+	c.slot(fi.successWitness(m, entryState(), cut) == nil, 1, "store/loop", "every listed trust store is validated", site, "the loop can be bypassed")
 }
 
 func fnByLabel(w *World, fn *ssa.Function, label string) *ssa.Function {
@@ -534,11 +707,12 @@ func fnByLabel(w *World, fn *ssa.Function, label string) *ssa.Function {
 	return nil
 }
 
-func c09Identities(c *Ctx, TI *ssa.Function) {
+// c09Identities: the identity rules; pi is the position of the identity list among the validator's parameters.
+func c09Identities(c *Ctx, TI *ssa.Function, pi int) {
 	w := c.W
 	fi := w.Info(TI)
 	c.SeenFn(TI.String())
-	p := "param:" + TI.Params[1].Name()
+	p := "param:" + TI.Params[pi].Name()
 	wc, _ := w.constString("internal/trustpolicy", "Wildcard")
 	xs, _ := w.constString("internal/trustpolicy", "X509Subject")
 	site := w.FnPos(TI)
@@ -746,48 +920,99 @@ func c09Overlap(c *Ctx, OV *ssa.Function, isSubset func(*ssa.Call) bool) ssa.Val
 	return p
 }
 
-// c09ScopeCall: the call of the scope validator — the module callee of the OCI validator that returns an error and is
-// handed the document or its statement list (the role is given by what is passed, not by a name).
-func c09ScopeCall(w *World, ociV *ssa.Function) *ssa.Call {
+// c09ScopeAt: where the scope rules of the OCI document stand.
+type c09ScopeAt struct {
+	fn           *ssa.Function // the function that holds the loops: a module callee of the document validator, or the validator itself
+	call         *ssa.Call     // the call of fn in the document validator (nil: the rules stand in the validator itself)
+	stm          string        // the statement list, rendered in the frame of fn
+	outer, inner *loopRef      // the statement loop and, inside it, the loop over the scopes of its statement
+}
+
+// c09ScopeSite finds the scope rules by role: the function that ranges over the RegistryScopes of every statement of the
+// document — a module callee of the OCI validator that returns an error and is handed the document or its statement list
+// (at whatever position, next to whatever other arguments), or the validator itself when the rules were inlined.
+// When no candidate has both loops the last callee that is handed the statements is returned (the loops are reported missing).
+func c09ScopeSite(w *World, ociV *ssa.Function) *c09ScopeAt {
 	doc := "param:" + ociV.Params[0].Name()
-	var out *ssa.Call
+	var cands []*c09ScopeAt
 	for _, ci := range allCalls(ociV) {
 		call, ok := ci.(*ssa.Call)
 		if !ok {
 			continue
 		}
-		g := staticCallee(call)
-		if g == nil || g.Blocks == nil || !w.IsProductFn(g) || len(call.Call.Args) != 1 || !isErrorType(call.Type()) {
+		g := c09Helper(w, call)
+		r := call.Call.Signature().Results()
+		if g == nil || r.Len() == 0 || !isErrorType(r.At(r.Len()-1).Type()) {
 			continue
 		}
-		if d := desc(call.Call.Args[0]); d == doc || d == doc+".TrustPolicies" {
-			out = call
+		for i, a := range call.Call.Args {
+			switch desc(a) {
+			case doc:
+				cands = append(cands, &c09ScopeAt{fn: g, call: call, stm: "param:" + g.Params[i].Name() + ".TrustPolicies"})
+			case doc + ".TrustPolicies":
+				cands = append(cands, &c09ScopeAt{fn: g, call: call, stm: "param:" + g.Params[i].Name()})
+			}
 		}
 	}
-	return out
+	cands = append(cands, &c09ScopeAt{fn: ociV, stm: doc + ".TrustPolicies"})
+	var best, lastCall *c09ScopeAt
+	for _, at := range cands {
+		for _, o := range allLoops(at.fn) {
+			o := o
+			if desc(o.X) != at.stm {
+				continue
+			}
+			if at.outer == nil {
+				at.outer = &o
+			}
+			in := loopBlocks(o.Header)
+			for _, l := range allLoops(at.fn) {
+				l := l
+				if l.Header == o.Header || !in[l.Header.Index] {
+					continue
+				}
+				if p, ok := c09ElemPath(w, at.fn, l.X, &o); ok && p == ".RegistryScopes" {
+					at.outer, at.inner = &o, &l
+				}
+			}
+		}
+		if at.inner != nil && (best == nil || best.call == nil) {
+			best = at
+		}
+		if at.call != nil {
+			lastCall = at
+		}
+	}
+	if best != nil {
+		return best
+	}
+	return lastCall
+}
+
+// c09ScopeCall: the call of the scope validator in the OCI validator (nil when there is none).
+func c09ScopeCall(w *World, ociV *ssa.Function) *ssa.Call {
+	if at := c09ScopeSite(w, ociV); at != nil {
+		return at.call
+	}
+	return nil
 }
 
 func c09Scopes(c *Ctx, ociV *ssa.Function) {
 	w := c.W
-	scCall := c09ScopeCall(w, ociV)
-	if scCall == nil {
+	at := c09ScopeSite(w, ociV)
+	if at == nil {
 		c.Bad("scope/anchor", "scope rules are applied to the document", w.FnPos(ociV), "no scope validator is called with the document or its statements")
 		return
 	}
-	SC := staticCallee(scCall)
+	SC := at.fn
 	fi := w.Info(SC)
 	c.SeenFn(SC.String())
-	// the statement list inside the scope validator: its parameter, or the TrustPolicies field of its parameter
-	stm := "param:" + SC.Params[0].Name()
-	if !strings.HasSuffix(desc(scCall.Call.Args[0]), ".TrustPolicies") {
-		stm += ".TrustPolicies"
-	}
 	m := Mode{Kind: mErr}
 	wc, _ := w.constString("internal/trustpolicy", "Wildcard")
-	outer := findLoop(SC, func(d string) bool { return d == stm })
-	inner := findLoop(SC, func(d string) bool {
-		return strings.HasPrefix(d, stm+"[") && strings.HasSuffix(d, "].RegistryScopes")
-	})
+	// the statement loop, and inside it the scope loop: the loop that ranges over the RegistryScopes of the statement of
+	// the current iteration — the element at the loop's own index, read in place or through a read-only local copy
+	// (c09ElemPath; decided on SSA values, not on how the statement is spelled)
+	outer, inner := at.outer, at.inner
 	// the scope counts: a map[string]int made in the validator, ranged over after the statement loop
 	var uniq *loopRef
 	for _, l := range allLoops(SC) {
@@ -812,6 +1037,12 @@ func c09Scopes(c *Ctx, ociV *ssa.Function) {
 	c.slot(b, n, "scope/present", "scopes: every statement has at least one registry scope", osite, "")
 	b, n = toInner(anyOf("LE(len("+sc+"),const:1)", fmt.Sprintf("F(call:slices.Contains(%s,const:%q))", sc, wc)))
 	c.slot(b && n >= 2, n, "scope/wildcard-alone", "scopes: the wildcard scope stands alone", osite, "")
+	// success only through the statement loop
+	{
+		cut := map[edgeKey]bool{}
+		cutInto(fi, outer.Header, cut)
+		c.slot(fi.successWitness(m, entryState(), cut) == nil, 1, "scope/every-statement-visited", "scopes: the scope rules are applied to every statement", osite, "the statement loop of the scope rules can be bypassed")
+	}
 	// the outer iteration completes only through the scope loop
 	{
 		cut := map[edgeKey]bool{}
@@ -904,7 +1135,9 @@ func c09Scopes(c *Ctx, ociV *ssa.Function) {
 	p := "param:" + FM.Params[fmArg].Name()
 	fsite := w.FnPos(FM)
 	// strings.Contains(s, sep) and the `found` answer of strings.Cut(s, sep) (also written strings.Index(s, sep) >= 0) are the same predicate
-	ok, n2, wit := exitsBlockedDeep(w, FM, m, anyOf("LE(len("+p+"),const:1)", "F(call:strings.Contains("+p+`,const:"*"))`, "F(call:strings.Cut("+p+`,const:"*")#2)`))
+	// (so are strings.ContainsRune(s, '*'), strings.ContainsAny(s, "*") and strings.Count(s, "*") != 0)
+	ok, n2, wit := exitsBlockedDeep(w, FM, m, anyOf("LE(len("+p+"),const:1)", "F(call:strings.Contains("+p+`,const:"*"))`, "F(call:strings.Cut("+p+`,const:"*")#2)`,
+		"F(call:strings.ContainsRune("+p+",const:42))", "F(call:strings.ContainsAny("+p+`,const:"*"))`, "EQ(call:strings.Count("+p+`,const:"*"),const:0)`))
 	c.slot(ok && n2 >= 2, n2, "scope-format/no-embedded-wildcard", "scope format: no '*' inside a longer scope", fsite, "", wit...)
 	hasAll := func(subs ...string) bool {
 		if len(fs.Exits) == 0 {
@@ -989,36 +1222,44 @@ func c09Forced(c *Ctx) {
 	if ctor == nil {
 		return
 	}
-	fi := w.Info(ctor)
 	c.SeenFn(ctor.String())
 	for _, kind := range []string{"OCIDocument", "BlobDocument"} {
-		var docD string
-		var vcall *ssa.Call
-		for _, ci := range allCalls(ctor) {
-			if call, ok := ci.(*ssa.Call); ok && calleeName(call) == "(*ngo/verifier/trustpolicy."+kind+").Validate" {
-				vcall = call
-				docD = desc(call.Call.Args[0])
-			}
-		}
 		key := "forced/validate-" + strings.ToLower(kind)
-		if vcall == nil {
-			c.Bad(key, "the constructor validates the "+kind, w.FnPos(ctor), "Validate is not called")
-			continue
-		}
-		ok, n, wit := exitsBlocked(fi, Mode{Kind: mErr}, anyOf("EQ("+docD+",nil)", "EQ("+descTailErr(vcall)+",nil)"), nil)
-		c.slot(ok && n >= 2, n, key, "construction: a non-nil "+kind+" must pass Validate", w.InstrPos(vcall), "a verifier can be constructed with an invalid document", wit...)
-		// the document stored in the verifier is the one validated
-		stored := false
+		validate := "(*ngo/verifier/trustpolicy." + kind + ").Validate"
+		// the document kept by the verifier: what is stored into its field of this document type
+		var docs []string
+		var site ssa.Instruction
 		for _, b := range ctor.Blocks {
 			for _, in := range b.Instrs {
 				if st, ok := in.(*ssa.Store); ok {
-					if fa, ok := st.Addr.(*ssa.FieldAddr); ok && namedOf(fa.X.Type()) == w.verifierTypeName() && desc(st.Val) == docD {
-						stored = true
+					if fa, ok := st.Addr.(*ssa.FieldAddr); ok && namedOf(fa.X.Type()) == w.verifierTypeName() && namedOf(st.Val.Type()) == "ngo/verifier/trustpolicy."+kind {
+						docs = append(docs, desc(st.Val))
+						site = st
 					}
 				}
 			}
 		}
-		c.Check(stored, key+"-stored", "the document kept by the verifier is the one that was validated", w.InstrPos(vcall), "another document is stored")
+		for _, ci := range allCalls(ctor) {
+			if call, ok := ci.(*ssa.Call); ok && calleeName(call) == validate {
+				site = call
+			}
+		}
+		if site == nil {
+			c.Bad(key, "the constructor validates the "+kind, w.FnPos(ctor), "no document of this kind is kept, Validate is not called")
+			continue
+		}
+		docs = uniq(docs)
+		// The document that is kept is nil or passed Validate: with the edges "document == nil" and "Validate(document)
+		// returned no error" removed, no success exit of the constructor is reachable. The two tests may stand in the
+		// constructor or in a module helper whose success it requires (exitsBlockedDeep: the helper's facts are read
+		// with its parameters replaced by the arguments, so they are facts about this very document).
+		okV, nV := len(docs) == 1, 0
+		var wit []string
+		if okV {
+			okV, nV, wit = exitsBlockedDeep(w, ctor, Mode{Kind: mErr}, anyOf("EQ("+docs[0]+",nil)", "EQ(call:"+validate+"("+docs[0]+")#err,nil)"))
+		}
+		c.slot(okV && nV >= 2, nV, key, "construction: a non-nil "+kind+" must pass Validate", w.InstrPos(site), "a verifier can be constructed with an invalid document", wit...)
+		c.Check(len(docs) == 1, key+"-stored", "the document kept by the verifier is the one that was validated", w.InstrPos(site), fmt.Sprintf("documents stored: %v", docs))
 	}
 	// at least one document
 	s := w.Summarize(ctor, Mode{Kind: mErr})
